@@ -118,6 +118,7 @@ func candidates(sc *Scenario) []*Scenario {
 		}
 		return ok
 	})
+	add(func(c *Scenario) bool { ok := c.Cancel.Deadline; c.Cancel.Deadline = false; return ok })
 	add(func(c *Scenario) bool { ok := c.Buffer; c.Buffer = false; c.Writer = WriterSpec{}; return ok })
 	add(func(c *Scenario) bool { ok := c.LogErr; c.LogErr = false; return ok })
 	add(func(c *Scenario) bool { ok := c.Serial; c.Serial = false; return ok })
@@ -158,6 +159,12 @@ func candidates(sc *Scenario) []*Scenario {
 		if sc.Build[i].Via != "" {
 			add(func(c *Scenario) bool { c.Build[i].Via = ""; return true })
 		}
+		if sc.Build[i].Alt {
+			add(func(c *Scenario) bool { c.Build[i].Alt = false; return true })
+		}
+		if sc.Build[i].Only != 0 {
+			add(func(c *Scenario) bool { c.Build[i].Only = 0; return true })
+		}
 	}
 	for t := range sc.Tasks {
 		if !men[t] {
@@ -177,6 +184,9 @@ func candidates(sc *Scenario) []*Scenario {
 			}
 			if a.Chunks > 0 {
 				add(func(c *Scenario) bool { c.Tasks[t].Attempts[k].Chunks--; return true })
+			}
+			if a.Big {
+				add(func(c *Scenario) bool { c.Tasks[t].Attempts[k].Big = false; return true })
 			}
 		}
 	}
